@@ -85,6 +85,40 @@ fn corpus() -> Vec<Case> {
                 .collect(),
             }
         },
+        // thorough seed 3 case of round 2 (kept rows taller than the terminal, then println): see docs/C19.md
+        {
+            let hb = |len, fin, tmpl: Vec<TPart>| BarInit { len, fin, tmpl, target: TInit::Hidden };
+            Case {
+                w: 1,
+                h: 5,
+                fail_at: vec![],
+                fail_from: None,
+                mp: TInit::Term(None),
+                bars: vec![
+                    hb(Some(29), Fin::WithMessage("a+y".into()), vec![TPart::Lit("A".into()), TPart::Prefix, TPart::Msg, TPart::Pos]),
+                    hb(None, Fin::AbandonWithMessage("b-/".into()), vec![TPart::Lit("B".into()), TPart::Pos]),
+                    hb(Some(29), Fin::Abandon, vec![TPart::Lit("C".into()), TPart::Msg]),
+                ],
+                ops: vec![
+                    (1000000, Op::Insert(Loc::End, 2)),
+                    (51000000, Op::Reset(2)),
+                    (52000000, Op::Insert(Loc::End, 1)),
+                    (3600052000000, Op::SetMsg(1, "<c9".into())),
+                    (3600101999999, Op::FinishUsingStyle(2)),
+                    (3600106999999, Op::Tick(2)),
+                    (3600156999999, Op::Insert(Loc::End, 0)),
+                    (7200156999999, Op::Drop(2)),
+                    (7200157999999, Op::Reset(0)),
+                    (7200158999999, Op::Drop(1)),
+                    (7200159999999, Op::Drop(0)),
+                    (7200160999999, Op::MPrintln("\n = 9\n\n".into())),
+                    (7200161999999, Op::MPrintln("\n/".into())),
+                    (7200211999998, Op::MPrintln("=x".into())),
+                    (7200261999998, Op::MPrintln("".into())),
+                    (7200311999998, Op::MPrintln("(\nb".into())),
+                ],
+            }
+        },
         // Coq: C19_example_cut_then_room - frame taller than the terminal, then it shrinks and fits
         mk(
             2,
@@ -136,11 +170,140 @@ fn f64_ceiling_sweep(s: &mut Session, r: &mut Rng, n: u64) {
     s.oracle_only(format!("f64 ceiling sweep: {} random divisors + boundary grid, all below 2^53", n), true);
 }
 
+/// ORACLE-ONLY stream (the drawing models are single-column): texts made of DOUBLE-WIDTH characters
+/// only, on EVEN terminal widths (no character straddles the right edge: that case, D20, stays out of
+/// scope), a single bar; the recorded TermLike calls are replayed on the vt100 crate, which knows
+/// wide characters.  After every painted draw the visible screen must be  log rows ++ frame rows
+/// with a line of k wide characters occupying ceil(2k/W) rows (so erasing after a shrink /
+/// finish_and_clear is exact), and the cursor must be at the right edge of the last frame row.
+/// Class 'wide-text-rows-miscounted'.
+fn wide_text_stream(s: &mut Session, r: &mut Rng, n: usize) {
+    const WIDE: [char; 6] = ['進', '捗', '状', '況', '確', '認'];
+    fn cw(c: char) -> usize {
+        if (c as u32) >= 0x1100 {
+            2
+        } else {
+            1
+        }
+    }
+    fn rows_of(line: &str, w: usize) -> Vec<String> {
+        let mut out = vec![String::new()];
+        let mut col = 0;
+        for c in line.chars() {
+            if col + cw(c) > w {
+                out.push(String::new());
+                col = 0;
+            }
+            out.last_mut().unwrap().push(c);
+            col += cw(c);
+        }
+        out.iter().map(|x| x.trim_end().to_string()).collect()
+    }
+    for i in 0..n {
+        let w = *r.pick(&[4u16, 6, 8, 10, 20]);
+        let h = 40u16;
+        let wu = w as usize;
+        let two = r.chance(1, 2);
+        let tmpl = if two { vec![TPart::Msg, TPart::NewLine, TPart::Pos] } else { vec![TPart::Msg] };
+        let wide = |r: &mut Rng, k: usize| -> String { (0..k).map(|_| *r.pick(&WIDE)).collect() };
+        let mut ops: Vec<Op> = vec![];
+        let nops = r.range(3, 8);
+        for _ in 0..nops {
+            let k = match r.below(6) {
+                0 => wu / 2,
+                1 => wu / 2 + 1,
+                2 => wu,
+                3 => wu + 1,
+                _ => r.below(wu as u64 + 3) as usize,
+            };
+            ops.push(match r.below(8) {
+                0..=3 => Op::SetMsg(0, wide(r, k)),
+                4 => Op::Println(0, if r.chance(1, 2) { wide(r, k) } else { "log".into() }),
+                5 => Op::Tick(0),
+                6 => Op::Inc(0, 1),
+                _ => Op::ForceDraw(0),
+            });
+        }
+        ops.push(if r.chance(1, 2) { Op::Finish(0, Fin::AndClear) } else { Op::Finish(0, Fin::AndLeave) });
+        let case = Case {
+            w,
+            h,
+            fail_at: vec![],
+            fail_from: None,
+            mp: TInit::Hidden,
+            bars: vec![BarInit { len: Some(9), fin: Fin::AndLeave, tmpl, target: TInit::Term(None) }],
+            ops: ops.into_iter().enumerate().map(|(j, o)| ((j as u64 + 1) * 1_000_000_000, o)).collect(),
+        };
+        let obs = run_case(&case);
+        let desc = format!("WIDE {}", describe(&case));
+        let mut vt = Vt100::new(w, h);
+        let mut log: Vec<String> = vec![];
+        let mut hidden = false;
+        let mut bad: Option<String> = None;
+        for ((_, op), o) in case.ops.iter().zip(obs.iter()) {
+            if let Some(p) = &o.panic {
+                bad = Some(format!("panic: {p}"));
+                break;
+            }
+            match op {
+                Op::Println(_, m) => log.extend(m.lines().map(|x| x.to_string())),
+                Op::Finish(_, f) => hidden = matches!(f, Fin::AndClear),
+                _ => {}
+            }
+            let fed = {
+                let v = &mut vt;
+                catch(|| v.feed(&o.emitted)).is_ok()
+            };
+            if !fed {
+                break;
+            }
+            if !o.emitted.iter().any(|x| *x == verif_harness::spy::TOp::Flush) {
+                continue;
+            }
+            let g = match &o.getters[0] {
+                Some(g) => g.clone(),
+                None => break,
+            };
+            let mut want: Vec<String> = log.iter().flat_map(|l| rows_of(l, wu)).collect();
+            let mut frame_rows = 0;
+            if !hidden {
+                let mut fr = rows_of(&g.msg, wu);
+                if two {
+                    fr.extend(rows_of(&g.pos.to_string(), wu));
+                }
+                frame_rows = fr.len();
+                want.extend(fr);
+            }
+            while want.last().map_or(false, |x| x.is_empty()) {
+                want.pop();
+            }
+            let mut got = vt.visible_rows();
+            while got.last().map_or(false, |x| x.is_empty()) {
+                got.pop();
+            }
+            s.count("wide_text_screen_checks");
+            let (_, col) = vt.cursor();
+            if got != want {
+                bad = Some(format!("after {:?}: the screen shows {:?} but log ++ frame is {:?}", op, got, want));
+                break;
+            }
+            if frame_rows > 0 && col != wu {
+                bad = Some(format!("after {:?}: the cursor is at column {col}, not at the right edge of the last frame row (screen {:?})", op, got));
+                break;
+            }
+        }
+        if let Some(d) = bad {
+            s.fail("wide-text-rows-miscounted", d, desc.clone());
+        }
+        s.oracle_only(desc, i % 1 == 0);
+    }
+}
+
 fn main() {
     let a = args();
     let mut s = Session::new(&a, "C19", COQ_HEADER, COQ_CASE_TY, COQ_CHECKER);
     s.shard_size = 120;
-    s.rule = "MultiProgress and single-bar histories on terminals W in 1..10, H in 1..6 (and 1x1), 1..6 bars with one- to three-line templates and messages whose widths cluster at multiples of W, adds/removes/finishes/drops that push the frame past the height and back; single standalone bars with random multi-line templates on W in {1,2,3,4,5,7} x H in 1..4; every draw current (gaps >= 1 ms, no refresh limiter); oracle: screen = log ++ the leading bar lines whose accumulated wrapped rows fit H, nothing else; plus a sweep of the f64 ceiling of wrapped_height; non-trivial = at least 4 ops; distinct = distinct case text".into();
+    s.rule = "MultiProgress and single-bar histories on terminals W in 1..10, H in 1..6 (and 1x1), 1..6 bars with one- to three-line templates and messages whose widths cluster at multiples of W, adds/removes/finishes/drops that push the frame past the height and back; single standalone bars with random multi-line templates on W in {1,2,3,4,5,7} x H in 1..4; every draw current (gaps >= 1 ms, no refresh limiter); oracle: screen = log ++ the leading bar lines whose accumulated wrapped rows fit H, nothing else; plus a sweep of the f64 ceiling of wrapped_height; plus an oracle-only stream of double-width texts on even widths judged on the vt100 crate; non-trivial = at least 4 ops; distinct = distinct case text".into();
     let mut r = Rng::new(a.seed);
     let n = if a.thorough { 6000 } else if a.extended { 3000 } else { 500 };
     let mut cases = corpus();
@@ -165,5 +328,6 @@ fn main() {
     }
     run_sys_cases(&mut s, &cases, &|c, _| c.ops.len() >= 4);
     f64_ceiling_sweep(&mut s, &mut r, if a.thorough { 200_000 } else { 20_000 });
+    wide_text_stream(&mut s, &mut r, if a.thorough { 2000 } else { 250 });
     s.finish();
 }
